@@ -487,7 +487,7 @@ def localize(S, loc):
         return {"writers": None, "tests": tests[0], "note": "not reproducible from the order alone"}
     W = before
     n = 2
-    while len(W) >= 2 and tests[0] < 80:
+    while len(W) >= 2 and tests[0] < 200:
         chunk = max(1, len(W) // n)
         subsets = [W[i : i + chunk] for i in range(0, len(W), chunk)]
         reduced = False
